@@ -367,12 +367,12 @@ pub fn main(tier: Option<&str>) {
     run.assume("record payloads: 2 fixed values per key; the store never parses past the 2-byte header");
     let api: usize = run.pick(3, 4);
     for (cfg, block, prefill, label) in [
-        (RigCfg { max_records: 2, cache_size: 1 }, false, vec![], "cap2-cache1"),
-        (RigCfg { max_records: 2, cache_size: 1 }, false, vec![(0, 0), (1, 0)], "cap2-cache1-prefilled(k0,k1)"),
-        (RigCfg { max_records: 2, cache_size: 25 }, false, vec![(1, 0), (2, 0)], "cap2-cache25-prefilled(k1,k2)"),
-        (RigCfg { max_records: 100, cache_size: 25 }, false, vec![], "cap100-cache25"),
-        (RigCfg { max_records: 100, cache_size: 1 }, false, vec![(0, 0), (1, 0), (2, 0)], "cap100-cache1-prefilled(all)"),
-        (RigCfg { max_records: 100, cache_size: 1 }, true, vec![(0, 0)], "cap100-cache1-iofail-prefilled(k0)"),
+        (RigCfg { max_records: 2, cache_size: 1, max_value_bytes: None }, false, vec![], "cap2-cache1"),
+        (RigCfg { max_records: 2, cache_size: 1, max_value_bytes: None }, false, vec![(0, 0), (1, 0)], "cap2-cache1-prefilled(k0,k1)"),
+        (RigCfg { max_records: 2, cache_size: 25, max_value_bytes: None }, false, vec![(1, 0), (2, 0)], "cap2-cache25-prefilled(k1,k2)"),
+        (RigCfg { max_records: 100, cache_size: 25, max_value_bytes: None }, false, vec![], "cap100-cache25"),
+        (RigCfg { max_records: 100, cache_size: 1, max_value_bytes: None }, false, vec![(0, 0), (1, 0), (2, 0)], "cap100-cache1-prefilled(all)"),
+        (RigCfg { max_records: 100, cache_size: 1, max_value_bytes: None }, true, vec![(0, 0)], "cap100-cache1-iofail-prefilled(k0)"),
     ] {
         let a = if block { api.saturating_sub(1).max(2) } else { api };
         bfs_replay(
